@@ -163,6 +163,16 @@ func checkC20(c *Ctx, r *Report) {
 			if !instrDominates(um[0], vs[0]) {
 				viol = "validation does not come after decoding"
 			}
+			// what is decoded is what was read: no rewriting of the document text in between
+			raw := false
+			if ex, ok := stripTrivial(um[0].Common().Args[0]).(*ssa.Extract); ok && ex.Index == 0 {
+				if rc, ok := ex.Tuple.(*ssa.Call); ok && calleeName(rc) == "os.ReadFile" {
+					raw = true
+				}
+			}
+			if !raw {
+				viol = fmt.Sprintf("%s: the bytes decoded are not the bytes os.ReadFile returned but something computed from them (%s): string values of the document (info, servers, securitySchemes, paths) are then not honoured literally (e.g. os.ExpandEnv rewrites every `$name`)", w.pos(um[0].Pos()), sliceOf(um[0].Common().Args[0]))
+			}
 		}
 		o := r.add("C20.a", "fieldflow", load+":validated==decoded==returned", "the value validated is the value decoded and the value returned", []string{load}, sites, viol)
 		o.NonTrivial = true
@@ -425,6 +435,9 @@ func checkC20(c *Ctx, r *Report) {
 			if !pa.hasFieldNamed("OutputPath") || !pa.hasFieldNamed("RoutesConfig") || len(pa.Consts) > 0 {
 				viol = fmt.Sprintf("%s: the routes file path is not exactly routesConfig.outputPath (fields %v consts %v)", w.pos(fw.Site.Pos()), pa.fieldNames(), pa.Consts)
 			}
+			for cn := range pa.Calls {
+				viol = fmt.Sprintf("%s: the configured routes path passes through %s before it is used", w.pos(fw.Site.Pos()), cn)
+			}
 			if fw.PermAtoms == nil {
 				viol = fmt.Sprintf("%s: the routes file is created without an explicit mode (%s)", w.pos(fw.Site.Pos()), fw.Via)
 				continue
@@ -568,6 +581,11 @@ func checkC20(c *Ctx, r *Report) {
 			pa := sliceOf(cl.v)
 			if !pa.hasFieldNamed("OutputPath") || !pa.hasFieldNamed("SpecGeneratorConfig") || len(pa.Consts) > 0 {
 				viol = fmt.Sprintf("%s: path is not derived from specGeneratorConfig.outputPath alone (fields %v consts %v)", w.pos(cl.pos), pa.fieldNames(), pa.Consts)
+			}
+			for cn := range pa.Calls {
+				if cn != "path/filepath.Dir" {
+					viol = fmt.Sprintf("%s: the configured spec path passes through %s before it is used: the artifact can land at a path that was never configured", w.pos(cl.pos), cn)
+				}
 			}
 		}
 		if len(w.fileWritesOf(fi.SSA, 0)) != 1 {
